@@ -40,17 +40,25 @@ Definition nth_is (k : nat) (s : bytes) (b : N) : bool :=
    the terminating semicolon is outside every class. *)
 Definition char_ref_len (s : bytes) : nat :=
   match s with
-  | 38 :: 35 :: c :: r3 =>
-    if (c =? 120) || (c =? 88) then
-      let k := span is_hex r3 in
-      if Nat.leb 1 k && Nat.leb k 6 && nth_is k r3 59 then (k + 4)%nat else 0%nat
-    else
-      let k := span is_digit (c :: r3) in
-      if Nat.leb 1 k && Nat.leb k 7 && nth_is k (c :: r3) 59 then (k + 3)%nat else 0%nat
-  | 38 :: r =>
-    let k := span is_alnum r in
-    if Nat.leb 1 k && nth_is k r 59 then (k + 2)%nat else 0%nat
-  | _ => 0%nat
+  | a :: r =>
+    if negb (a =? 38) then 0%nat else
+    match r with
+    | h :: c :: r3 =>
+      if h =? 35 then
+        if (c =? 120) || (c =? 88) then
+          let k := span is_hex r3 in
+          if Nat.leb 1 k && Nat.leb k 6 && nth_is k r3 59 then (k + 4)%nat else 0%nat
+        else
+          let k := span is_digit (c :: r3) in
+          if Nat.leb 1 k && Nat.leb k 7 && nth_is k (c :: r3) 59 then (k + 3)%nat else 0%nat
+      else
+        let k := span is_alnum r in
+        if Nat.leb 1 k && nth_is k r 59 then (k + 2)%nat else 0%nat
+    | _ =>
+      let k := span is_alnum r in
+      if Nat.leb 1 k && nth_is k r 59 then (k + 2)%nat else 0%nat
+    end
+  | [] => 0%nat
   end.
 
 (* ---------------- unescapeHTML on one matched reference ---------------- *)
@@ -246,7 +254,8 @@ Inductive tail_result :=
 Definition parse_link_tail (text : bytes) : tail_result :=
   let fuel := S (length text) in
   match text with
-  | 40 :: rest0 =>
+  | c0 :: rest0 =>
+    if negb (c0 =? 40) then TailNone else
     match rest0 with [] => TailNone | _ =>
     let s1 := skip_ws rest0 in
     match s1 with
@@ -281,13 +290,13 @@ Definition parse_link_tail (text : bytes) : tail_result :=
         | None => TailNone
         | Some (title, rest2) =>
           match skip_ws rest2 with
-          | 41 :: rest3 => TailOk (length text - length rest3) dest title
-          | _ => TailNone
+          | c3 :: rest3 => if c3 =? 41 then TailOk (length text - length rest3) dest title else TailNone
+          | [] => TailNone
           end
         end
       end
     end end
-  | _ => TailNone
+  | [] => TailNone
   end.
 
 (* ---------------- delimiter flanking (canOpenCloseEmphasis) ----------------
